@@ -1,5 +1,7 @@
 package vc
 
+import "go/types"
+
 // Assumed contract of golang.org/x/tools/go/types/typeutil.Map (trusted,
 // listed in the evidence): a finite map from type identities to values.
 //   At(m, k)      = tmap[m][k]            (nil when absent)
@@ -26,6 +28,16 @@ func (x *Exec) RegisterTypeMapModels() {
 		return S(prev), true
 	}
 	x.ModelMods["(*golang.org/x/tools/go/types/typeutil.Map).Set"] = []string{"tmap"}
+	// new(typeutil.Map) / typeutil.Map{} is the empty map
+	prev := x.OnAlloc
+	x.OnAlloc = func(s *State, id *Term, t types.Type) {
+		if prev != nil {
+			prev(s, id, t)
+		}
+		if types.TypeString(t, nil) == "golang.org/x/tools/go/types/typeutil.Map" {
+			s.setHeapComp(tmapComp, Store(get(s), id, ConstArray(SArr(SInt, SInt), IntLit(0))))
+		}
+	}
 	x.SpecFuncs["tmapAt"] = func(e *Env, a []Value) Value {
 		return S(Select(Select(get(e.S), e.toTerm(a[0])), e.toTerm(a[1])))
 	}
